@@ -127,7 +127,7 @@ impl Prop for C10 {
     }
 
     fn cases(tier: Tier) -> u64 {
-        tier.pick(3_000, 60_000)
+        tier.pick(20_000, 200_000)
     }
 
     fn enumerate(tier: Tier) -> Vec<Case> {
